@@ -99,7 +99,7 @@ Section Unknown.
     destruct (emapM _ (un_cases u)) as [rows| |] eqn:Erows; cbn [ebind] in Hb; try discriminate.
     destruct (match un_default u with Some d0 => _ | None => _ end) as [fb'| |] eqn:Efb; cbn [ebind] in Hb; try discriminate.
     inversion Hb; subst dv disc arms fb. clear Hb.
-    destruct Hok as [Hlab [Hvoid [Hlast Hdef]]].
+    destruct Hok as [Hlab [Hvoid Hdef]].
     pose proof (data_sel A md Hgen Hsup u d dd Hdisc Td Hdd (un_cases u) rows Hlab Erows) as Hdata.
     unfold arm_for in Harm.
     destruct (find (fun c => existsb (fun l => label_selects A l d) (uc_values c)) (un_cases u)) as [c|] eqn:Ec.
@@ -112,13 +112,14 @@ Section Unknown.
     destruct (mem "default" (un_void u)) eqn:Em; [discriminate|].
     inversion Efb; subst fb'.
     (* every arm fails to match, the fallback is the UnknownVariant arm *)
-    assert (Hall : Forall (nomatch md dd) (concat rows ++ map (void_entry A u) (un_void u))).
-    { apply Forall_app. split; [exact Hdata|]. apply Forall_forall. intros x Hx.
-      apply in_map_iff in Hx as [l [<- Hl]].
+    assert (Hall : Forall (nomatch md dd)
+                     (concat rows ++ map (void_entry A u) (filter (fun l => negb (String.eqb l "default")) (un_void u)) ++ [])).
+    { rewrite app_nil_r. apply Forall_app. split; [exact Hdata|]. apply Forall_forall. intros x Hx.
+      apply in_map_iff in Hx as [l [<- Hl]]. apply filter_In in Hl as [Hl Hnd0].
       assert (Hnd : l <> "default"%string).
       { intros ->. apply mem_In in Hl. congruence. }
       eapply void_nomatch; try eassumption.
-      - split; [exact Hlab|]. split; [exact Hvoid|]. split; [exact Hlast|]. intros c0 Hc0. rewrite Edc in Hc0. discriminate.
+      - split; [exact Hlab|]. split; [exact Hvoid|]. intros c0 Hc0. rewrite Edc in Hc0. discriminate.
       - pose proof (find_none _ _ Ev l Hl) as X. cbv beta in X.
         apply Bool.andb_false_iff in X as [X|X]; [|exact X].
         apply Bool.negb_false_iff, String.eqb_eq in X. contradiction. }
@@ -130,8 +131,9 @@ Section Unknown.
       match goal with Hen : get_type A ?e' = Some (TEnum ?en'), Hin : In (?m, VNum ?v) _ |- _ =>
         destruct (enum_value_member A md Hgen Hsup e' en' m (VNum v) Hen Hin) as [x Hx]; rewrite Hx; eexists; reflexivity end. }
     destruct Hz as [z Hz]. exists z. split; [exact Hz|].
-    change (map (fun l => (if String.eqb l "default" then MWild else label_matcher A (un_sw_type u) l,
-                           variant_name l, @None dexp)) (un_void u)) with (map (void_entry A u) (un_void u)).
+    change (map (fun l => (label_matcher A (un_sw_type u) l, variant_name l, @None dexp)))
+      with (map (void_entry A u)).
+    remember (concat rows ++ map (void_entry A u) (filter (fun l => negb (String.eqb l "default")) (un_void u)) ++ []) as arms0.
     clear - Hall Hz.
     induction Hall as [|[[m v] p] arms Hx _ IH]; cbn [eval_arms].
     - rewrite Hz. reflexivity.
